@@ -744,10 +744,10 @@ def _http_request(eng, st, args, kwargs, line):
     advance_clock(eng, s2, None)
     body = kwargs.get('body')
     if body is not None and body.ty.kind != 'none':
-        if body.ty.kind not in ('str', 'bytes'):
+        if body.ty.kind not in ('str', 'bytes', 'any'):
             raise core.EngineError('HTTP body of type %r at line %d' % (body.ty, line))
         g = s2.ghost
-        g['http_bodies'] = V(List(STR), z3.Concat(g['http_bodies'].t, z3.Unit(body.t)))
+        g['http_bodies'] = V(List(ANY), z3.Concat(g['http_bodies'].t, z3.Unit(box(body))))
         eng._wrote(s2, ('ghost', 'http_bodies'))
     r = z3.Int(eng.name('http_resp'))
     s2.pc.append(r >= 1)
